@@ -42,7 +42,64 @@ class C18(Prop):
 
     def setup_drivers(self):
         from lib import demodlib
-        return [self.impl_driver(None), demodlib.drivers()[0]]
+        from props.c20 import PROP as C20P
+        return [self.impl_driver(None), demodlib.drivers()[0]] + list(C20P.programs())
+
+    def bert_pipeline(self, ctx):
+        """process level: `m17-mod -B` (the repository's BERT transmitter: PRBS9 generator, make_bert_frame, baseband) piped into m17-demod (the
+        repository's BERT receiver: demodulator, decode_bert, PRBS9 validator, BER display). m17-mod -B runs until interrupted: it is sent
+        SIGINT after N frames. Oracle: the last BER line shows 0 errors over at least (N - 40) x 197 bits; both programs exit 0."""
+        import subprocess, signal, re, os
+        from props.c20 import PROP as C20P
+        mod, dem = C20P.programs(san=(ctx.tier != "quick"))
+        rng = ctx.rng
+        for trial in range(2 if ctx.tier == "quick" else 8):
+            nfr = rng.choice([120, 200, 333])
+            inv = trial % 2
+            src = "".join(rng.choice("ABCDEFGHIJKLMNOPQRSTUVWXYZ0123456789") for _ in range(rng.randrange(1, 10)))
+            cmd_m = [mod, "-S", src, "-B"] + (["-i"] if inv else [])
+            pm = subprocess.Popen(cmd_m, stdout=subprocess.PIPE, stderr=subprocess.PIPE, env=core.san_env())
+            want = 3840 * (nfr + 1)                  # preamble + nfr frames of 1920 int16 samples
+            bb = b""
+            while len(bb) < want:
+                chunk = pm.stdout.read(want - len(bb))
+                if not chunk:
+                    break
+                bb += chunk
+            pm.send_signal(signal.SIGINT)
+            try:
+                rest, merr = pm.communicate(timeout=60)
+            except subprocess.TimeoutExpired:
+                pm.kill(); rest, merr = pm.communicate()
+                merr += b"\nTIMEOUT: m17-mod -B did not stop on SIGINT"
+            bb = bb[:want - (want % 2)]
+            cmd_d = [dem] + (["-d"] if trial % 2 else ["-l"]) + (["-i"] if inv else [])
+            pd = subprocess.run(cmd_d, input=bb, stdout=subprocess.PIPE, stderr=subprocess.PIPE, timeout=600, env=core.san_env())
+            err = pd.stderr.decode(errors="replace")
+            ctx.count(("bert-pipeline", src, nfr, inv), nontrivial=True)
+            ctx.stat("bert-pipeline:runs")
+            probs = []
+            if pm.returncode != 0:
+                probs.append(f"m17-mod -B exit status {pm.returncode} after SIGINT: {core.first_err_line(merr.decode(errors='replace'))}")
+            if pd.returncode != 0:
+                probs.append(f"m17-demod exit status {pd.returncode}: {core.first_err_line(err)}")
+            m = re.findall(r"BER: ([0-9.]+) \((\d+) bits\)", err)
+            if not m:
+                probs.append("m17-demod printed no BER line for a BERT transmission")
+            else:
+                ber, nb = float(m[-1][0]), int(m[-1][1])
+                ctx.stat("bert-pipeline:bits-validated", nb)
+                if ber != 0.0:
+                    probs.append(f"clean BERT transmission of {nfr} frames received with BER {ber} over {nb} bits (must be 0)")
+                if nb < (nfr - 40) * 197:
+                    probs.append(f"only {nb} bits validated of {nfr} x 197 transmitted (at most the first 40 frames may be lost to acquisition)")
+            if probs:
+                bbp = os.path.join(core.VERIF, "evidence", "replay", f"C18-bert-{trial}.bb.raw")
+                os.makedirs(os.path.dirname(bbp), exist_ok=True)
+                open(bbp, "wb").write(bb)
+                ctx.violate("bert-pipeline:" + re.sub(r"[^a-z]+", "-", probs[0].lower())[:40], f"{' '.join(cmd_m[1:])} | m17-demod {' '.join(cmd_d[1:])}: " + "; ".join(probs[:3]),
+                            {"stream": "bert-pipeline", "mod_cmd": cmd_m, "demod_cmd": cmd_d, "baseband_file": bbp, "frames": nfr, "stderr_tail": err[-800:],
+                             "how": "m17-mod -S <src> -B, interrupted with SIGINT after the given number of frames, output fed to m17-demod"})
 
     def app_bert_stage(self, ctx, seq):
         """m17-demod's decode_bert handler (the real function, in-process) on packed BERT payloads: consecutive 197-bit cuts of the sequence
@@ -183,6 +240,7 @@ class C18(Prop):
                         ctx.violate("prbs:count", f"sparse error pattern ({len(es)} errors, no 128-window with 25): sync={synced} errors={nerr} bits={nbits} (expected {len(es)} / {n-9}..{n})",
                                     {"stream": "prbs", "ops": [ln], "impl": a})
         self.app_bert_stage(ctx, seq)
+        self.bert_pipeline(ctx)
         if ctx.model_ok:
             model = ctx.run_model(lines)
             ctx.compare("prbs", lines, impl, model, oracle=lambda ln, a: None, sig=lambda ln: "scenario")
